@@ -191,6 +191,7 @@ type cprog struct {
 	Expected string // "" = order not asserted (only repetition)
 	Classes  int
 	Entries  int
+	Labels   []string // keyed-ops program: what each expected line shows
 }
 
 var propNames = []string{"z", "a", "m", "b", "y", "k", "Q", "c9", "x_1", "d"}
@@ -298,7 +299,80 @@ func genKeyedOpsProgram(rt *rapid.T) cprog {
 	}
 	fmt.Fprintf(&sb, "show(array_filter($a + $b, function ($v) { return $v > %d; }));\n", th)
 	exp.WriteString(show(fl))
-	return cprog{Src: sb.String(), Expected: exp.String(), Classes: 0, Entries: len(merged)}
+	labels := []string{"array_merge", "array_replace", "union", "array_values", "foreach", "array_slice", "array_unique", "array_filter"}
+	// unset of an entry (first, middle or last), enumeration, then the key set again: it goes to the end
+	c := append([]kv{}, merged...)
+	for round := 0; round < 2 && len(c) > 1; round++ {
+		at := rapid.IntRange(0, len(c)-1).Draw(rt, "unsetAt")
+		gone := c[at]
+		c = append(append([]kv{}, c[:at]...), c[at+1:]...)
+		if round == 0 {
+			sb.WriteString("$c = array_merge($a, $b);\n")
+		}
+		fmt.Fprintf(&sb, "unset($c['%s']);\nshow($c);\n", gone.k)
+		exp.WriteString(show(c))
+		labels = append(labels, "unset")
+		if rapid.Bool().Draw(rt, "readd") {
+			c = append(c, kv{gone.k, 9})
+			fmt.Fprintf(&sb, "$c['%s'] = 9;\nshow($c);\nforeach ($c as $k => $v) { echo $k, ':', $v, ';'; }\necho \"\\n\";\n", gone.k)
+			var fe2 []string
+			for _, e := range c {
+				fe2 = append(fe2, fmt.Sprintf("%s:%d;", e.k, e.v))
+			}
+			exp.WriteString(show(c) + strings.Join(fe2, "") + "\n")
+			labels = append(labels, "set-after-unset", "foreach-after-unset")
+		}
+	}
+	// dynamic properties of an object: set in order, one of them overwritten later (it keeps its place).
+	// (unset($o->p) stores null instead of removing the property - a matter of unset, not of order - so no
+	// property is unset here.)
+	o := append([]kv{}, A...)
+	sb.WriteString("$o = new stdClass();\n")
+	for _, e := range o {
+		fmt.Fprintf(&sb, "$o->%s = %d;\n", e.k, e.v)
+	}
+	if len(o) > 1 {
+		at := rapid.IntRange(0, len(o)-1).Draw(rt, "oAt")
+		o[at].v = 8
+		fmt.Fprintf(&sb, "$o->%s = 8;\n", o[at].k)
+	}
+	sb.WriteString("foreach ($o as $k => $v) { echo $k, ':', $v, ';'; }\necho \"\\n\", json_encode($o), \"\\n\";\n")
+	var ofe, ojs []string
+	for _, e := range o {
+		ofe = append(ofe, fmt.Sprintf("%s:%d;", e.k, e.v))
+		ojs = append(ojs, fmt.Sprintf("%q:%d", e.k, e.v))
+	}
+	exp.WriteString(strings.Join(ofe, "") + "\n{" + strings.Join(ojs, ",") + "}\n")
+	labels = append(labels, "object-foreach", "object-json_encode")
+	// decoding keeps document order (both modes), encoding keeps insertion order
+	var djs []string
+	for _, e := range B {
+		djs = append(djs, fmt.Sprintf("%q:%d", e.k, e.v))
+	}
+	doc := "{" + strings.Join(djs, ",") + "}"
+	fmt.Fprintf(&sb, "$doc = '%s';\nshow(json_decode($doc, true));\nforeach (json_decode($doc) as $k => $v) { echo $k, ':', $v, ';'; }\necho \"\\n\", json_encode(json_decode($doc)), \"\\n\", json_encode($b), \"\\n\";\n", doc)
+	exp.WriteString(show(B) + strings.Join(fe, "") + "\n" + doc + "\n" + doc + "\n")
+	labels = append(labels, "json_decode-assoc", "json_decode-object-foreach", "json_decode-object-reencode", "json_encode")
+	// more library calls that build keyed arrays
+	var keysA []string
+	for _, e := range A {
+		keysA = append(keysA, "'"+e.k+"'")
+	}
+	fill := make([]kv, len(A))
+	for i, e := range A {
+		fill[i] = kv{e.k, 0}
+	}
+	fmt.Fprintf(&sb, "show(array_fill_keys([%s], 0));\nshow(array_combine(array_keys($a), array_values($a)));\n", strings.Join(keysA, ", "))
+	exp.WriteString(show(fill) + show(A))
+	labels = append(labels, "array_fill_keys", "array_combine")
+	flipped := make([]kv, len(A))
+	for i, e := range A {
+		flipped[i] = kv{e.k, i}
+	}
+	sb.WriteString("show(array_flip(array_keys($a)));\n")
+	exp.WriteString(show(flipped))
+	labels = append(labels, "array_flip")
+	return cprog{Src: sb.String(), Expected: exp.String(), Classes: 0, Entries: len(merged), Labels: labels}
 }
 
 func genClassProgram(rt *rapid.T) cprog {
@@ -695,6 +769,22 @@ func TestC20(t *testing.T) {
 		if cp.Expected != "" {
 			outs, _ := seqRun(pool, []string{cp.Src})
 			if len(outs) == 1 && outs[0] != cp.Expected {
+				if len(cp.Labels) > 0 {
+					// keyed by the first line that differs: one library call / construct per line
+					gl, wl := strings.Split(outs[0], "\n"), strings.Split(cp.Expected, "\n")
+					for i := range wl {
+						if i >= len(gl) || gl[i] != wl[i] {
+							lbl, g := "end", ""
+							if i < len(cp.Labels) {
+								lbl = cp.Labels[i]
+							}
+							if i < len(gl) {
+								g = gl[i]
+							}
+							return &failure{Key: "cell:order:" + lbl + ":" + orderClass(g, wl[i]), Detail: fmt.Sprintf("%s: enumeration differs from insertion / document order:\n  want %q\n  got  %q\n%s", lbl, clip(wl[i], 300), clip(g, 300), clip(cp.Src, 2500)), Case: c20Case{Kind: "order", Src: cp.Src, Want: cp.Expected}}
+						}
+					}
+				}
 				return &failure{Key: "cell:order:" + orderClass(outs[0], cp.Expected), Detail: fmt.Sprintf("enumeration order differs from declaration / insertion order:\n  want %q\n  got  %q\n%s", clip(cp.Expected, 500), clip(outs[0], 500), clip(cp.Src, 1500)), Case: c20Case{Kind: "order", Src: cp.Src, Want: cp.Expected}}
 			}
 		}
